@@ -13,6 +13,7 @@ import (
 	"sort"
 	"strconv"
 	"strings"
+	"sync/atomic"
 	"time"
 
 	"dsim"
@@ -225,6 +226,9 @@ type Opts struct {
 
 // RunOnce executes the scenario once on the given tape.
 func RunOnce(sc Scenario, t *dsim.Tape, o Opts) (res RunResult) {
+	atomic.AddInt64(&watchdogBeat, 1)
+	atomic.StoreInt64(&watchdogActive, 1)
+	defer atomic.StoreInt64(&watchdogActive, 0)
 	x := &X{Tape: t, Tier: o.Tier, Replay: t.Replay, RealOnly: o.RealOnly, Known: o.Known, knownHits: map[string]int{},
 		notes: map[string]any{}, probes: map[string]int{}, faults: map[string]int{}, digest: 1469598103934665603}
 	func() {
@@ -397,26 +401,32 @@ func replayMain(sc Scenario, opts Opts) {
 }
 
 var watchdogRun = -1
-var watchdogAt time.Time
+var watchdogBeat int64
 
+// startWatchdog ends the process when a single scenario execution (search run, shrink candidate or
+// replay) makes no progress for sec seconds of wall-clock time: un-instrumented loops cannot be
+// interrupted any other way. The driver attributes the death to the last BEGIN line.
 func startWatchdog(sec int) {
 	go func() {
-		last := -2
-		var since time.Time
+		last := int64(-1)
+		since := time.Now()
 		for {
 			time.Sleep(500 * time.Millisecond)
-			if watchdogRun != last {
-				last = watchdogRun
+			b := atomic.LoadInt64(&watchdogBeat)
+			if b != last {
+				last = b
 				since = time.Now()
 				continue
 			}
-			if last >= 0 && time.Since(since) > time.Duration(sec)*time.Second {
-				fmt.Printf("WATCHDOG run=%d exceeded %ds wall\n", last, sec)
+			if atomic.LoadInt64(&watchdogActive) == 1 && time.Since(since) > time.Duration(sec)*time.Second {
+				fmt.Printf("WATCHDOG run=%d exceeded %ds wall\n", watchdogRun, sec)
 				os.Exit(4)
 			}
 		}
 	}()
 }
+
+var watchdogActive int64
 
 func searchMain(name string, sc Scenario, opts Opts) {
 	base := uint64(envInt("VERIF_SEED", 1))
